@@ -4,6 +4,7 @@ package region
 // a manually driven server, call builders, result collectors, trace.
 
 import (
+	"sync/atomic"
 	"context"
 	"fmt"
 	"io"
@@ -76,6 +77,26 @@ type rcEnv struct {
 	dialErr error
 }
 
+// the hook variable of the client is written once per process; scenarios swap the function behind it atomically (a
+// scenario's assignment must not race with goroutines an earlier scenario's client left behind)
+var rcHookCur atomic.Pointer[func(point string, c any, arg any)]
+
+func init() {
+	VerifHook = func(point string, c any, arg any) {
+		if h := rcHookCur.Load(); h != nil {
+			(*h)(point, c, arg)
+		}
+	}
+}
+
+func rcSetHook(f func(point string, c any, arg any)) {
+	if f == nil {
+		rcHookCur.Store(nil)
+		return
+	}
+	rcHookCur.Store(&f)
+}
+
 func newRCEnv(o rcOpts) *rcEnv {
 	if o.queueSize == 0 {
 		o.queueSize = 1
@@ -92,14 +113,14 @@ func newRCEnv(o rcOpts) *rcEnv {
 		env.cli.SetHook(o.hook)
 	}
 	env.cli.OnClose = func() { env.tr.Emit("connClosed") }
-	VerifHook = func(point string, c any, arg any) {
+	rcSetHook(func(point string, c any, arg any) {
 		if cc, ok := c.(*client); ok && cc == env.c {
 			if o.onHook != nil {
 				o.onHook(point, arg)
 			}
 			env.gates.hit(point)
 		}
-	}
+	})
 	h := verifsim.HandlerFunc(func(sc *verifsim.ServerConn, req *verifsim.Request) {
 		env.tr.Emit("srvreq", "id", int(req.CallID), "method", req.Method, "calls", rcTags(req))
 		if o.auto != nil {
